@@ -109,6 +109,20 @@ Definition copier_gas (mag : Z) (memlen lastfee newsize words_operand : Z) : opt
                    if o3 then None else Some (g3, last')
   end.
 
+(* gasSha3: memory fee + 6 per hashed word, SafeMul/SafeAdd, magnifyGas *)
+Definition sha3_gas (mag : Z) (memlen lastfee newsize words_operand : Z) : option (Z * Z) :=
+  match memory_gas_cost mag memlen lastfee newsize with
+  | None => None
+  | Some (g, last') =>
+    if negb (words_operand <? U64) then None
+    else let '(w, o1) := safe_mul (to_word_size words_operand) 6 in
+         if o1 then None
+         else let '(g2, o2) := safe_add g w in
+              if o2 then None
+              else let '(g3, o3) := safe_mul g2 mag in
+                   if o3 then None else Some (g3, last')
+  end.
+
 Definition bit_len (x : Z) : Z := if x =? 0 then 0 else Z.log2 x + 1.
 (* gasExpEIP158 *)
 Definition exp_gas (mag exponent : Z) : option Z :=
@@ -118,11 +132,24 @@ Definition exp_gas (mag exponent : Z) : option Z :=
 
 (* ---- opcode decoding (opcodes.go numbering) ------------------------------------------------ *)
 
+(* environment reads: values of the call frame / block context, parameters of a run *)
+Inductive envk := EAddress | EOrigin | ECaller | ECallValue | EGasPrice | ECoinbase | ETimestamp | ENumber
+| EDifficulty | EGasLimit | EChainId | ESelfBalance.
+Record env := mkEnv { e_address : Z; e_origin : Z; e_caller : Z; e_callvalue : Z; e_gasprice : Z; e_coinbase : Z;
+  e_timestamp : Z; e_number : Z; e_difficulty : Z; e_gaslimit : Z; e_chainid : Z; e_selfbalance : Z }.
+Definition env_get (E : env) (k : envk) : Z :=
+  match k with
+  | EAddress => e_address E | EOrigin => e_origin E | ECaller => e_caller E | ECallValue => e_callvalue E
+  | EGasPrice => e_gasprice E | ECoinbase => e_coinbase E | ETimestamp => e_timestamp E | ENumber => e_number E
+  | EDifficulty => e_difficulty E | EGasLimit => e_gaslimit E | EChainId => e_chainid E | ESelfBalance => e_selfbalance E
+  end.
+
 Inductive kind :=
 | KStop | KArith2 (o : op) | KArith3 (o : op) | KArith1 (o : op)
 | KCallDataLoad | KCallDataSize | KCallDataCopy | KCodeSize | KCodeCopy
 | KPop | KMload | KMstore | KMstore8 | KJump | KJumpi | KPc | KMsize | KGas | KJumpdest
-| KMcopy | KPush0 | KPush (n : Z) | KDup (n : Z) | KSwap (n : Z) | KReturn | KRevert | KOther.
+| KMcopy | KPush0 | KPush (n : Z) | KDup (n : Z) | KSwap (n : Z) | KReturn | KRevert
+| KSha3 | KEnv (e : envk) | KRetDataSize | KRetDataCopy | KOther.
 
 Definition decode (b : Z) : kind :=
   if b =? 0 then KStop else if b =? 1 then KArith2 ADD else if b =? 2 then KArith2 MUL
@@ -134,6 +161,13 @@ Definition decode (b : Z) : kind :=
   else if b =? 22 then KArith2 AND else if b =? 23 then KArith2 OR else if b =? 24 then KArith2 XOR
   else if b =? 25 then KArith1 NOT else if b =? 26 then KArith2 BYTE else if b =? 27 then KArith2 SHL
   else if b =? 28 then KArith2 SHR else if b =? 29 then KArith2 SAR
+  else if b =? 32 then KSha3
+  else if b =? 48 then KEnv EAddress else if b =? 50 then KEnv EOrigin else if b =? 51 then KEnv ECaller
+  else if b =? 52 then KEnv ECallValue else if b =? 58 then KEnv EGasPrice
+  else if b =? 61 then KRetDataSize else if b =? 62 then KRetDataCopy
+  else if b =? 65 then KEnv ECoinbase else if b =? 66 then KEnv ETimestamp else if b =? 67 then KEnv ENumber
+  else if b =? 68 then KEnv EDifficulty else if b =? 69 then KEnv EGasLimit else if b =? 70 then KEnv EChainId
+  else if b =? 71 then KEnv ESelfBalance
   else if b =? 53 then KCallDataLoad else if b =? 54 then KCallDataSize else if b =? 55 then KCallDataCopy
   else if b =? 56 then KCodeSize else if b =? 57 then KCodeCopy
   else if b =? 80 then KPop else if b =? 81 then KMload else if b =? 82 then KMstore
@@ -161,6 +195,8 @@ Fixpoint set_nth (l : list Z) (n : nat) (v : Z) : list Z :=
 Section Machine.
   Variable opsem : op -> Z -> Z -> Z -> Z.
   Variable jumpdest_ok : code -> Z -> bool.
+  Variable hash : list Z -> Z.            (* KECCAK-256 of a byte string, as a 256-bit big-endian number *)
+  Variable E : env.
   Variable P : params.
   Variable c : code.
   Variable input : list Z.
@@ -173,7 +209,8 @@ Section Machine.
     match k with
     | KMload | KMstore => Some (calc_mem_size_u (b 0) 32)
     | KMstore8 => Some (calc_mem_size_u (b 0) 1)
-    | KCallDataCopy | KCodeCopy => Some (calc_mem_size (b 0) (b 2))
+    | KCallDataCopy | KCodeCopy | KRetDataCopy => Some (calc_mem_size (b 0) (b 2))
+    | KSha3 => Some (calc_mem_size (b 0) (b 1))
     | KMcopy => Some (calc_mem_size (if b 0 <? b 1 then b 1 else b 0) (b 2))
     | KReturn | KRevert => Some (calc_mem_size (b 0) (b 1))
     | _ => None
@@ -185,8 +222,9 @@ Section Machine.
     match k with
     | KMload | KMstore | KMstore8 | KReturn | KRevert =>
         Some (memory_gas_cost mag (zlen (s_mem st)) (s_fee st) msize)
-    | KCallDataCopy | KCodeCopy | KMcopy =>
+    | KCallDataCopy | KCodeCopy | KMcopy | KRetDataCopy =>
         Some (copier_gas mag (zlen (s_mem st)) (s_fee st) msize (b 2))
+    | KSha3 => Some (sha3_gas mag (zlen (s_mem st)) (s_fee st) msize (b 1))
     | KArith2 EXP => Some (match exp_gas mag (b 1) with Some g => Some (g, s_fee st) | None => None end)
     | _ => None
     end.
@@ -242,6 +280,19 @@ Section Machine.
     | KSwap n, t :: r =>
         let other := znth s n 0 in
         Next (upd st (pc + 1) (set_nth (other :: r) (Z.to_nat n) t) m)
+    | KSha3, off :: size :: r =>
+        (* opSha3: data := memory.GetPtr(offset, size) (nil when size = 0); the digest replaces the size slot *)
+        let data := if size mod U64 =? 0 then [] else slice m (off mod U64) (size mod U64) in
+        Next (upd st (pc + 1) (wpush (hash data) r) m)
+    | KEnv e, _ => Next (upd st (pc + 1) (wpush (env_get E e) s) m)
+    | KRetDataSize, _ => Next (upd st (pc + 1) (wpush 0 s) m)      (* Run resets returnData; no call opcode is modelled *)
+    | KRetDataCopy, mo :: dof :: l :: r =>
+        (* opReturnDataCopy over an empty return buffer: the data offset must fit 64 bits, end = offset + length
+           (256-bit add) must fit 64 bits and not exceed len(returnData) = 0 *)
+        if negb (dof <? U64) then Done (OFail ERetDataOOB)
+        else let e := (dof + l) mod W in
+             if negb (e <? U64) || (0 <? e) then Done (OFail ERetDataOOB)
+             else Next (upd st (pc + 1) r m)
     | KReturn, off :: size :: _ =>
         Done (OReturn (if size mod U64 =? 0 then [] else slice m (off mod U64) (size mod U64)) (s_gas st))
     | KRevert, off :: size :: _ =>
@@ -315,3 +366,4 @@ Section Machine.
 End Machine.
 
 Definition run_impl := call impl_op valid_jumpdest.
+(* run_impl hash E P c input fuel gas *)
